@@ -389,6 +389,10 @@ func (g *storageGen) next() (sdk.Msg, map[string]interface{}, func(pre, post stS
 			denom = "utest"
 		}
 		ref := []string{"", "", creator, g.user(), "alice.jkl", "nobody.jkl", "garbage"}[r.Intn(7)]
+		upperCreator := r.Intn(6) == 0
+		if upperCreator && r.Intn(2) == 0 {
+			ref = creator // one's own address as referrer, under another spelling than the signer string
+		}
 		var refJ interface{}
 		if a, err := c.A.RnsKeeper.Resolve(c.Ctx(), ref); err == nil {
 			refJ = a.String()
@@ -401,10 +405,20 @@ func (g *storageGen) next() (sdk.Msg, map[string]interface{}, func(pre, post stS
 				refJ = nil
 			}
 		}
-		msg := &sttypes.MsgBuyStorage{Creator: creator, ForAddress: forAddr, DurationDays: days, Bytes: byts, PaymentDenom: denom, Referral: ref}
+		// address spellings: an all-upper-case bech32 string is the same account (accepted by
+		// AccAddressFromBech32 and by signature verification); the op records the *accounts*
+		// (canonical strings), the message carries the spelling
+		rawCreator, rawFor := creator, forAddr
+		if upperCreator {
+			rawCreator = strings.ToUpper(creator)
+		}
+		if r.Intn(10) == 0 {
+			rawFor = strings.ToUpper(forAddr)
+		}
+		msg := &sttypes.MsgBuyStorage{Creator: rawCreator, ForAddress: rawFor, DurationDays: days, Bytes: byts, PaymentDenom: denom, Referral: ref}
 		g.lastBuy = msg
-		op := map[string]interface{}{"buyStorage": map[string]interface{}{"creator": creator, "forAddress": forAddr, "durationDays": days, "bytes": byts, "denom": denom, "referral": refJ, "jklPrice": g.jklPriceRaw(), "gaugeId": "", "gaugeAcc": ""}}
-		return msg, op, fillGauge("buyStorage", bigEnd(days))
+		op := map[string]interface{}{"buyStorage": map[string]interface{}{"creator": creator, "forAddress": forAddr, "durationDays": days, "bytes": byts, "denom": denom, "referral": refJ, "jklPrice": g.jklPriceRaw(), "gaugeId": "", "gaugeAcc": "", "creatorRaw": rawCreator, "forAddressRaw": rawFor}}
+		return msg, op, fillGauge("buyStorage", new(big.Int).Add(big.NewInt(c.T.UnixNano()), big.NewInt(days*86400_000_000_000))) // time.Duration(days)*24h wraps in int64
 	case k < m.buy+m.post:
 		creator := g.user()
 		// real content, a few chunks
